@@ -38,7 +38,10 @@ type lApp struct {
 	SwapFee  string `json:"swap_fee_rate"`
 	WdFee    string `json:"withdraw_fee_rate"`
 	TickPrec uint64 `json:"tick_precision"`
-	ID       uint64 `json:"-"`
+	// denomination swap fees are distributed in; empty = the module default (the fee denomination ucmdx, into
+	// which collected fees are converted every 150 blocks)
+	DistrDenom string `json:"swap_fee_distr_denom,omitempty"`
+	ID         uint64 `json:"-"`
 }
 
 type lPair struct {
@@ -216,6 +219,9 @@ func newLMachine(t rec.TB, r *rec.Rec, prop string, cs *lCase) *lMachine {
 		p.SwapFeeRate = sdk.MustNewDecFromStr(a.SwapFee)
 		p.WithdrawFeeRate = sdk.MustNewDecFromStr(a.WdFee)
 		p.TickPrecision = a.TickPrec
+		if a.DistrDenom != "" {
+			p.SwapFeeDistrDenom = a.DistrDenom
+		}
 		m.k.SetGenericParams(c.Ctx, p)
 	}
 	big := world.Pow10(30)
